@@ -16,9 +16,10 @@
    (2) scheduler stream (first number = 9001; both endpoints send; x = 1 for A, 0 for B):
    case   = 9001, per endpoint (A then B): c_s c_a c_n c_c c_max, nsteps, steps,
             nconnections, per Connection in creation order: nhints, hints
-   step   = 0 x tag len | 1 x id tag len | 2 x id | 3 x id | 4 x | 5 x budget | 6 x | 7 x | 8 x
+   step   = 0 x tag len | 1 x id tag len | 2 x id | 3 x id | 4 x budget | 5 x budget | 6 x | 7 x | 8 x
             | 9 x w r | 10 | 11 x
             [Sync, AsyncStart, AsyncPoll, AsyncDrop, Conn, Handle, Open, Close, Cmd, Gate, Kill, CmdFail]
+            budget of a Conn step: 0..128, or 1000000 = polled under tokio::task::unconstrained
    trace  = 2, then per step: result, dump
    result = code, or for Handle: 0 | 1 k | 2 | 3 from per mode tag len
    dump   = aliveA aliveB sfreeA afreeA sfreeB afreeB nfreeA nfreeB carrierAB carrierBA cmdsA cmdsB
@@ -278,7 +279,7 @@ Definition p_step : parser step :=
   | 1 => let* x := pBool in let* i := pN in let* t := pN in let* l := pN in pret (SAsyncStart x i t l)
   | 2 => let* x := pBool in let* i := pN in pret (SAsyncPoll x i)
   | 3 => let* x := pBool in let* i := pN in pret (SAsyncDrop x i)
-  | 4 => let* x := pBool in pret (SConn x)
+  | 4 => let* x := pBool in let* b := pN in pret (SConn x b)
   | 5 => let* x := pBool in let* b := pN in pret (SHandle x b)
   | 6 => let* x := pBool in pret (SOpen x)
   | 7 => let* x := pBool in pret (SClose x)
@@ -296,6 +297,7 @@ Definition wf_step (t : step) : bool :=
   match t with
   | SSync _ t l | SAsyncStart _ _ t l => wf_size t l
   | SHandle _ b => b <=? 128
+  | SConn _ b => (b <=? 128) || (b =? BIG)
   | _ => true
   end.
 
